@@ -961,6 +961,19 @@ struct Interp {
           ts.add(ikos::bound<number_t>(to_num(mpz_class(t.as_str("0")))));
         res = regs[a].val->widen_thresholds(rhs_b, ts);
       }
+      if (getenv("CRABSIM_EXPLORE_LATTICE")) {
+        // exploratory (not part of any registered check): the fixpoint engines detect
+        // stabilisation with `new <= old`; they rely on both operands of a join or
+        // widening being below the result *according to the domain's own test*
+        AbsVal::P la = regs[a].val->clone(), lb = rhs_b.clone();
+        bool a_ok = la->leq(*res), b_ok = lb->leq(*res);
+        if (!a_ok || !b_ok) {
+          st.inc("explore_operand_not_leq_result");
+          violation(std::string("explore_operand_not_leq_result_of_") + o, a_ok ? "right" : "left",
+                    "a=" + la->str() + " b=" + lb->str() + " result=" + res->str());
+          return false;
+        }
+      }
       regs[d].val = std::move(res);
       regs[d].wit = nw;
       cap(regs[d].wit);
